@@ -237,3 +237,76 @@ Example C12_truncation_nonvacuous :
   ex_info_prefixes (ex_json 0 0 0 0) = true /\ ex_info_prefixes ex4_json = true /\
   ex_info_prefixes ex2_json = true.
 Proof. exact truncation_nonvacuous. Qed.
+
+(* ---- the REAL template decoders ------------------------------------------------- *)
+From PBK Require Import Column DecodeC FramePrefixData.
+
+(* Data-level truncation theorem.  Decode.decode_uncompressed and
+   DecodeC.decode_compressed — the full template walk of Walk.v, ANY template T,
+   any number of subsets — CUT: on every truncation of a stream they decode, they
+   return the same descriptors, links and values when the bits they consumed
+   fit, and fail with a LIBRARY error otherwise (instance 4 of the generic
+   simulation theorem WalkSim.walk_sim_gen: the truncated run follows the full
+   run until a read passes the end, which is BitReadError). *)
+Theorem C12_decode_uncompressed_cuts : forall T n, cuts (decode_uncompressed T n).
+Proof. exact decode_uncompressed_cuts. Qed.
+Print Assumptions C12_decode_uncompressed_cuts.
+
+Theorem C12_decode_compressed_cuts : forall T n, cuts (decode_compressed T n).
+Proof. exact decode_compressed_cuts. Qed.
+Print Assumptions C12_decode_compressed_cuts.
+
+(* The framing model with the real data decoders plugged in:
+   [dd_template T_of n_of c_of props r] decodes r with the template T_of props,
+   n_of props subsets, compressed iff c_of props, and returns the bits consumed
+   (how the attributes of sections 1 and 3 determine the expanded template — table
+   lookup — is outside the framing model, hence arbitrary functions).
+   NO hypothesis about the template decoder is left. *)
+Theorem C12_message_trailing_bytes_template : forall T_of n_of c_of sig info ign s t m,
+  decode_message (dd_template T_of n_of c_of) sig info ign s = Ok m ->
+  decode_message (dd_template T_of n_of c_of) sig info ign (s ++ t) = Ok m.
+Proof. exact message_trailing_bytes_template. Qed.
+Print Assumptions C12_message_trailing_bytes_template.
+
+Theorem C12_message_cut_template : forall T_of n_of c_of sig info ign s m,
+  decode_message (dd_template T_of n_of c_of) sig info ign s = Ok m ->
+  forall k,
+    if holds_message sig s m k
+    then decode_message (dd_template T_of n_of c_of) sig info ign (firstn k s) = Ok m
+    else lib_fail (decode_message (dd_template T_of n_of c_of) sig info ign (firstn k s)).
+Proof. exact message_cut_template. Qed.
+Print Assumptions C12_message_cut_template.
+
+Theorem C12_encoded_prefix_fails_template : forall T_of n_of c_of ign json m k,
+  encode_message ign json = Ok m ->
+  forallb sec_fitsb (m_sections m) = true -> forallb desc_fill_okb (m_sections m) = true ->
+  data_okb (dd_template T_of n_of c_of) [] (m_sections m) = true ->
+  (k < length (m_bytes m))%nat ->
+  lib_fail (decode_message (dd_template T_of n_of c_of) (Some sig_BUFR) false false (firstn k (m_bytes m))).
+Proof. exact encoded_prefix_fails_template. Qed.
+Print Assumptions C12_encoded_prefix_fails_template.
+
+Theorem C12_encoded_info_prefix_template : forall T_of n_of c_of ign json m,
+  encode_message ign json = Ok m ->
+  forallb sec_fitsb (m_sections m) = true -> forallb desc_fill_okb (m_sections m) = true ->
+  data_okb (dd_template T_of n_of c_of) [] (m_sections m) = true ->
+  exists mi,
+    decode_message (dd_template T_of n_of c_of) (Some sig_BUFR) true false (m_bytes m) = Ok mi /\
+    sections_nbits (m_sections mi) = (8 * (length (m_bytes m) - 4))%nat /\
+    forall k,
+      ((length (m_bytes m) - 4 <= k)%nat ->
+         decode_message (dd_template T_of n_of c_of) (Some sig_BUFR) true false (firstn k (m_bytes m)) = Ok mi) /\
+      ((k < length (m_bytes m) - 4)%nat ->
+         lib_fail (decode_message (dd_template T_of n_of c_of) (Some sig_BUFR) true false (firstn k (m_bytes m)))).
+Proof. exact encoded_info_prefix_template. Qed.
+Print Assumptions C12_encoded_info_prefix_template.
+
+(* non-vacuity: a template with a numeric element, a delayed replication (factor
+   031001) of a scaled element and a string; two subsets; edition 4; once
+   uncompressed (2 and 0 repetitions) and once compressed (columns with and
+   without increments): the executable hypotheses hold, the message decodes,
+   EVERY proper prefix fails with a library error (computed, all k), and
+   metadata-only decoding succeeds exactly from |m| - 4 on *)
+Example C12_real_truncation_nonvacuous :
+  ex_real_check (exu_json false ex_data) = true /\ ex_real_check (exu_json true ex_data_c) = true.
+Proof. exact real_truncation_nonvacuous. Qed.
